@@ -356,8 +356,9 @@ func exec(t []string) (string, string) {
 			}
 		}
 		s, err := bech32.ConvertAndEncode(hrp, p)
+		strict := refValidHrp(hrp, false) // non-empty, printable, no upper-case letter
 		if err != nil {
-			if refValidHrp(hrp, true) {
+			if strict {
 				return errClass(err), fmt.Sprintf("VIOL:encode-fails hrp=%q payload=%x: %v", hrp, p, err)
 			}
 			return errClass(err), "-"
@@ -366,13 +367,16 @@ func exec(t []string) (string, string) {
 		if !refValidHrp(hrp, true) {
 			return out, "-"
 		}
-		if want := refEncode(hrp, p); s != want {
+		if want := refEncode(hrp, p); strict && s != want {
 			return out, fmt.Sprintf("VIOL:encode-mismatch hrp=%q payload=%x: got %q, BIP-173 reference %q", hrp, p, s, want)
 		}
-		// round trip on the real implementation (an upper-case prefix comes back lower-cased:
-		// that is the documented behaviour of the encoder, which lower-cases before encoding)
+		// round trip on the real implementation.  For a valid prefix the same prefix must come
+		// back; a printable prefix with upper-case letters is lower-cased by the encoder, so
+		// there the prefix is compared ignoring case (whether such a prefix is "valid" is not
+		// for this oracle to decide).
 		back := implDecode(s)
-		if !back.ok || back.hrp != asciiLower(hrp) || string(back.payload) != string(p) {
+		if !back.ok || string(back.payload) != string(p) ||
+			(strict && back.hrp != hrp) || (!strict && asciiLower(back.hrp) != asciiLower(hrp)) {
 			return out, fmt.Sprintf("VIOL:roundtrip hrp=%q payload=%x encodes to %q which decodes to %s", hrp, p, s, back.out)
 		}
 		return out, "ok"
@@ -769,7 +773,7 @@ func gen(w *kit.Out, r *kit.Rand, tier string) {
 	boundary(w)
 	nRand, nAll, nGarb := 2500, 4, 3000
 	if tier == "thorough" {
-		nRand, nAll, nGarb = 40000, 25, 40000
+		nRand, nAll, nGarb = 30000, 25, 30000
 	}
 	// ---- structured random: round trips and mutations of valid strings
 	rr := r.Fork()
